@@ -170,7 +170,7 @@ def run(ctx):
             nontrivial += 1
         if len(samples) < 2 and len(data) < 300:
             samples.append(dict(encoding=gen_files.to_line(segs)))
-        if len(violations) >= 5 or len(disagreements) >= 20:
+        if len(violations) >= 5 or len(disagreements) >= ctx.dis_limit:
             break
         if ctx.tier == "quick" and ctx.elapsed() > 45:
             ctx.notes.append("stopped after %d files (time budget)" % fs.drawn)
